@@ -13,6 +13,7 @@ def run(chk):
     backtest_rules.run_loop(chk, "C09")
     backtest_rules.adjust_call_sites(chk, "C09")
     tree_rules.settings_pushed_at_construction(chk, "C09")
+    tree_rules.setup_from_parent_rules(chk, "C09")  # a sub-strategy created on the fly becomes visible to its parent through the same universe as one declared up front
     core_rules.outlay_rules(chk, "C09")
     core_rules.set_commissions_rules(chk, "C09")  # the same fee function nested and stand-alone
     from .c05 import settings_reach_every_node
